@@ -17,14 +17,17 @@
 (* Find / FindByName / RangeByName / ApplyClientFiltering).                *)
 (*                                                                         *)
 (* Identifiers are uniform 3-tuples (so that TLC can compare any two):     *)
-(*     <<"cid", n, 0>>     a ClientID                                      *)
-(*     <<"ip",  a, 0>>     the single address a (a W-bit number)           *)
+(*     <<"cid", n, 0>>     a ClientID (up to letter case: the code folds   *)
+(*                         ClientIDs to lower case when it stores them and *)
+(*                         when it takes them from a request; the harness  *)
+(*                         varies the case of the stored spelling)         *)
+(*     <<"ip",  n, 0>>     the single address n (zone and W bits, below)   *)
 (*     <<"net", b, l>>     the prefix of length l whose first address is b *)
 (*                         (b has its low W-l bits clear: canonical form)  *)
 (*     <<"mac", n, 0>>     a hardware address                              *)
 (*     <<"none",0, 0>>     "no ClientID in the request" / "no lease"       *)
 (***************************************************************************)
-EXTENDS Naturals, FiniteSets
+EXTENDS Naturals, FiniteSets, Sequences
 
 CONSTANT W      \* width of the abstract address space in bits
 
@@ -34,8 +37,22 @@ Kind(id) == id[1]
 
 Pow2(n) == 2 ^ n
 
-\* Address a lies in prefix p.
-Contains(p, a) == (a \div Pow2(W - p[3])) = (p[2] \div Pow2(W - p[3]))
+(***************************************************************************)
+(* Addresses and zones.  A source address (and an "ip" identifier) is the  *)
+(* number  n = zone * 2^W + bits :  bits is the W-bit address proper, zone *)
+(* is 0 for "no zone" or the number of an IPv6 zone (fe80::1%eth0).  Two   *)
+(* spellings that differ in the zone are DIFFERENT addresses: the exact-IP *)
+(* rule compares n (the code documents this: Storage.FindLoose exists      *)
+(* precisely because Find compares addresses with their zone, and "multiple*)
+(* clients can have the same IP address with different zones").  Prefixes  *)
+(* have no zone and containment looks at the bits only (index.findByIP:    *)
+(* "Remove zone before checking because prefixes strip zones").            *)
+(***************************************************************************)
+Bits(n) == n % Pow2(W)
+Zone(n) == n \div Pow2(W)
+
+\* Address n lies in prefix p.
+Contains(p, n) == (Bits(n) \div Pow2(W - p[3])) = (p[2] \div Pow2(W - p[3]))
 
 (***************************************************************************)
 (* A client record.  own / bs are the two opt-out switches of the          *)
@@ -81,6 +98,17 @@ UpdateRes(R, n, c) ==
     ELSE LET rest == R \ {ByName(R, n)} IN
          IF Clashes(rest, c) THEN [out |-> "err", reg |-> R]
                              ELSE [out |-> "ok",  reg |-> rest \cup {c}]
+
+\* Start-up with a configuration file: the clients of the file are added in
+\* order to an empty registry; one clash and the whole configuration is
+\* refused (client.NewStorage fails, AdGuard Home does not start): nothing is
+\* registered.  cs is a sequence of client records.
+RECURSIVE LoadFrom(_, _, _)
+LoadFrom(R, cs, i) ==
+    IF i > Len(cs) THEN [out |-> "ok", reg |-> R]
+    ELSE LET r == AddRes(R, cs[i]) IN
+         IF r.out = "err" THEN [out |-> "err", reg |-> {}] ELSE LoadFrom(r.reg, cs, i + 1)
+LoadRes(cs) == LoadFrom({}, cs, 1)
 
 RemoveRes(R, n) ==
     IF n \in NamesOf(R) THEN [out |-> "ok",  reg |-> R \ {ByName(R, n)}]
